@@ -60,14 +60,36 @@ class Interposer(object):
             outs = me._apply(msg)
             for m in outs:
                 me.sent.append(me.desc(m))
+                if hasattr(m, "raw_send"):
+                    for r in m.raw_send(conn):
+                        yield r
+                    continue
                 for r in orig_send(m, *a, **kw):
                     yield r
+
+        def _drain(gen):
+            for r in gen:
+                if r in (0, 1):
+                    raise RuntimeError("byzantine peer: synchronous send "
+                                       "would block")
 
         def _queue_message(msg):
             outs = me._apply(msg)
             for m in outs:
                 me.sent.append(me.desc(m))
-                orig_queue(m)
+                bct = conn._buffer_content_type
+                mct = getattr(m, "contentType", None)
+                if (bct is not None and bct != mct) or \
+                        (mct != 22 and m is not msg):
+                    # a record of another content type cannot share the
+                    # queue: flush what is queued, send it on its own (the
+                    # transport of a byzantine peer never blocks on send)
+                    if conn._buffer:
+                        _drain(conn._queue_flush())
+                    _drain(m.raw_send(conn) if hasattr(m, "raw_send")
+                           else orig_send(m))
+                else:
+                    orig_queue(m)
         conn._sendMsg = _sendMsg
         conn._queue_message = _queue_message
 
@@ -92,3 +114,31 @@ class Interposer(object):
 
     def fire(self, what):
         self.fired.append(what)
+
+
+class ProtectedCCS(object):
+    """A change_cipher_spec that is sent PROTECTED when the sender's write
+    state is encrypting (TLS 1.3: tlslite itself always sends CCS in the
+    clear, so the honest send path cannot produce this record)."""
+    contentType = 20
+    handshakeType = None
+
+    def __init__(self):
+        self.was_protected = None
+
+    def write(self):
+        return bytearray([1])
+
+    def raw_send(self, conn):
+        from tlslite.messages import Message, ChangeCipherSpec
+        rl = conn._recordLayer
+        ws = rl._writeState
+        if rl.version > (3, 3) and ws and ws.encContext:
+            self.was_protected = True
+            body = rl._encryptThenSeal(bytearray([1, 20]), 23)
+            for r in rl._recordSocket.send(Message(23, body)):
+                yield r
+        else:
+            self.was_protected = False
+            for r in rl.sendRecord(ChangeCipherSpec().create()):
+                yield r
